@@ -134,6 +134,11 @@ def extract_facts(pid):
             return {}, False
         raise
     facts = mod.extract(REPO)
+    try:
+        # remembered so that harnesses still have their parameters if a later extraction fails
+        write_json(os.path.join(WORK, f'facts_{pid}.json'), facts)
+    except (TypeError, ValueError):
+        pass
     changed = False
     render = getattr(mod, 'render', None)
     if render:
@@ -273,7 +278,19 @@ def _main(pid, args, seed, t0):
     leanchecker = 'not run (quick tier)'
     with open(os.path.join(VERIF, '.lock'), 'w') as lockf:
         fcntl.flock(lockf, fcntl.LOCK_EX)
-        facts, facts_changed = extract_facts(reg.get('facts_pid', pid))
+        facts_error = None
+        try:
+            facts, facts_changed = extract_facts(reg.get('facts_pid', pid))
+        except Exception as e:      # noqa
+            # the extractor could not read what it needs from the current source (e.g. a helper
+            # it runs was renamed or removed): the tie between model and code is broken; go on
+            # with the (stale-facts) driver and the oracle to look for a failing input
+            facts_error = f'{type(e).__name__}: {e}'
+            cache = os.path.join(WORK, f'facts_{reg.get("facts_pid", pid)}.json')
+            if not os.path.exists(cache):
+                raise MachineryError('facts extraction failed and no earlier facts are cached: '
+                                     + facts_error)
+            facts, facts_changed = json.load(open(cache)), False
         targets = list(reg['lean_modules'])
         drv = reg.get('driver')
         if not args.no_build:
@@ -304,6 +321,9 @@ def _main(pid, args, seed, t0):
             cand = os.path.join(LEAN, '.lake', 'build', 'bin', drv) if drv else None
             driver_path = cand if cand and os.path.exists(cand) else None
     try:
+        if facts_error:
+            audit_problems = list(audit_problems) + [
+                'facts could not be regenerated from the current source (' + facts_error + ')']
         return _after_build(pid, args, seed, t0, reg, known, tier, facts, facts_changed,
                             build_ok, build_errors, audit_results, audit_problems, driver_path,
                             leanchecker)
